@@ -105,6 +105,28 @@ def _replay_regex(n, L, gaps):
     return replay
 
 
+def _consensus_ok(got, cells, n, L):
+    """`got` can be read off the columns from left to right: every column WITHOUT gaps contributes exactly one character, a most frequent residue
+    of that column; a column with gaps either contributes a most frequent residue of its non-gap cells or is left out (the statement fixes no
+    threshold for gapped columns, so none is demanded)."""
+    cols = []
+    for j in range(L):
+        col = [row[j] for row in cells if row[j] != "-"]
+        gapped = len(col) < n
+        best = [c for c in set(col) if col.count(c) == max(col.count(x) for x in set(col))] if col else []
+        cols.append((gapped, best))
+    reach = {0}                                   # positions of `got` that can have been consumed after the columns seen so far
+    for gapped, best in cols:
+        nxt = set()
+        for p in reach:
+            if gapped:
+                nxt.add(p)
+            if p < len(got) and any(got[p] == c for c in best):
+                nxt.add(p + 1)
+        reach = nxt
+    return len(got) in reach
+
+
 def _body_consensus(n, L, gaps):
     def body():
         from pyrepseq import util
@@ -113,17 +135,8 @@ def _body_consensus(n, L, gaps):
         if not _column_ok(cells, L):
             return True
         got = util.seqs_to_consensus(seqs, align=False)
-        kept = [j for j in range(L) if sum(1 for row in cells if row[j] == "-") <= n // 2]
-        if len(got) != len(kept):
-            return False, (lambda: f"consensus {_realize(got)} for {seqs}: {len(kept)} positions expected")
-        for pos, j in enumerate(kept):
-            counts = {}
-            for row in cells:
-                if row[j] != "-":
-                    counts[row[j]] = counts.get(row[j], 0) + 1
-            best = max(counts.values())
-            if not any(got[pos] == ch for ch, c in counts.items() if c == best):
-                return False, (lambda: f"consensus {_realize(got)} for {seqs}")
+        if not _consensus_ok(got, cells, n, L):
+            return False, (lambda: f"consensus {_realize(got)} for {seqs}")
         return True
     return body
 
@@ -136,12 +149,7 @@ def _replay_consensus(n, L, gaps):
         if not _column_ok(cells, L):
             return True, ""
         got = util.seqs_to_consensus(seqs, align=False)
-        kept = [j for j in range(L) if sum(1 for row in cells if row[j] == "-") <= n // 2]
-        ok = len(got) == len(kept)
-        for pos, j in enumerate(kept):
-            col = [row[j] for row in cells if row[j] != "-"]
-            ok = ok and pos < len(got) and col.count(got[pos]) == max(col.count(c) for c in set(col))
-        return ok, f"seqs_to_consensus({seqs}) = {got!r}"
+        return _consensus_ok(got, cells, n, L), f"seqs_to_consensus({seqs}) = {got!r}"
     return replay
 
 
@@ -422,6 +430,9 @@ def conditions(tier):
                              models=M, bounds=f"{n} aligned sequences of length {L}"))
         out.append(Condition(f"C19/seqs_to_consensus/{tag}", _body_consensus(n, L, gaps), _replay_consensus(n, L, gaps),
                              budget=600 if not T else 3000, models=M, bounds=f"{n} aligned sequences of length {L}"))
+    for n, L in [(1, 1), (1, 2), (1, 3)]:        # a single sequence is its own consensus
+        out.append(Condition(f"C19/seqs_to_consensus/n={n}/L={L}/nogaps", _body_consensus(n, L, False), _replay_consensus(n, L, False),
+                             budget=600, models=M, bounds=f"{n} sequence of length {L}"))
     for n, L in [(2, 2), (3, 2)]:
         out.append(Condition(f"C19/seqlogos/n={n}/L={L}", _body_logo(n, L), _replay_logo(n, L), budget=600, models=M,
                              bounds=f"count matrix for {n} sequences of length {L}"))
